@@ -1,0 +1,70 @@
+//go:build verif
+
+package transport
+
+import "net"
+
+// Read-only accessors for the verification harness (build tag verif).
+
+// VerifSessionInfo is a snapshot of one SessionState.
+type VerifSessionInfo struct {
+	ID          SessionID
+	C2S, S2C    [KeyLen]byte
+	Remote      *net.UDPAddr
+	Established bool
+	Closed      bool
+	HasHandle   bool
+	Hidden      bool
+}
+
+func snapshotSession(ss *SessionState) VerifSessionInfo {
+	ss.m.Lock()
+	defer ss.m.Unlock()
+	info := VerifSessionInfo{
+		ID:          ss.sessionID,
+		C2S:         ss.clientToServerKey,
+		S2C:         ss.serverToClientKey,
+		Established: ss.handleState == established,
+		Closed:      ss.handleState == closed,
+		HasHandle:   ss.handle != nil,
+		Hidden:      ss.isHiddenHS,
+	}
+	if ss.remoteAddr != nil {
+		a := *ss.remoteAddr
+		info.Remote = &a
+	}
+	return info
+}
+
+// VerifSession returns the session of a client that completed its handshake.
+func (c *Client) VerifSession() (VerifSessionInfo, bool) {
+	if c.state.Load() != clientStateOpen || c.ss == nil {
+		return VerifSessionInfo{}, false
+	}
+	return snapshotSession(c.ss), true
+}
+
+// VerifSessions returns a snapshot of the server's session table.
+func (s *Server) VerifSessions() []VerifSessionInfo {
+	s.m.RLock()
+	list := make([]*SessionState, 0, len(s.sessions))
+	for _, ss := range s.sessions {
+		list = append(list, ss)
+	}
+	s.m.RUnlock()
+	out := make([]VerifSessionInfo, 0, len(list))
+	for _, ss := range list {
+		out = append(out, snapshotSession(ss))
+	}
+	return out
+}
+
+// VerifTableSizes returns the sizes of the pending-handshake and session tables.
+func (s *Server) VerifTableSizes() (handshakes, sessions int) {
+	s.m.RLock()
+	defer s.m.RUnlock()
+	return len(s.handshakes), len(s.sessions)
+}
+
+// VerifSession returns the session a handle belongs to.
+func (c *Handle) VerifSession() VerifSessionInfo { return snapshotSession(c.ss) }
